@@ -89,7 +89,9 @@ static NEXT_PORT: AtomicU16 = AtomicU16::new(0);
 
 /// a TCP port that is free right now (probed without SO_REUSEPORT); per-process rolling range
 pub fn free_port() -> u16 {
-    let base = 20000 + ((std::process::id() % 200) as u16) * 200;
+    // below the kernel's ephemeral port range (32768..), so that outgoing connections of other
+    // processes cannot take a port between the probe and its use
+    let base = 20000 + ((std::process::id() % 60) as u16) * 200;
     loop {
         let off = NEXT_PORT.fetch_add(1, Ordering::Relaxed) % 200;
         let port = base + off;
